@@ -33,8 +33,23 @@ def make_arg(spec):
     if kind == "float":
         return 1.5
     if kind == "surrogate":
-        return "lone surrogate \ud800 cannot be encoded"
+        # text with no UTF-8 form: ["surrogate"] or ["surrogate", code point, position]
+        cp = spec[1] if len(spec) > 1 else 0xD800
+        pos = spec[2] if len(spec) > 2 else 1
+        base = "caf\u00e9.txt"
+        if pos == 0:
+            return chr(cp)                               # alone
+        if pos == 1:
+            return chr(cp) + base                        # first
+        if pos == 2:
+            return base[:3] + chr(cp) + base[3:] + chr(cp)   # in the middle and last
+        # a surrogate PAIR in the wrong order is two unpaired surrogates
+        return base + chr(0xDC00 + (cp & 0x3FF)) + chr(0xD800 + (cp & 0x3FF))
     raise ValueError(spec)
+
+
+# unpaired surrogates: both halves, their boundaries, and the range PEP 383 ("surrogateescape") uses for raw bytes
+SURROGATES = [0xD800, 0xD801, 0xDBFF, 0xDC00, 0xDC7F, 0xDC80, 0xDCE9, 0xDCFF, 0xDD00, 0xDFFF]
 
 
 def is_text_arg(spec):
@@ -159,7 +174,9 @@ class C03(Prop):
     def strategy(self, tier):
         bytes_arg = gen.binary_spec(big=True, cap=70000)
         text_arg = gen.text_spec(big=True, cap_chars=30000)
-        wrong_for_text = st.one_of(bytes_arg, st.just(["none"]), st.just(["int", 7]), st.just(["surrogate"]),
+        surrogate = st.tuples(st.just("surrogate"), st.one_of(st.sampled_from(SURROGATES), st.integers(0xD800, 0xDFFF)),
+                              st.integers(0, 3)).map(list)
+        wrong_for_text = st.one_of(bytes_arg, st.just(["none"]), st.just(["int", 7]), st.just(["surrogate"]), surrogate,
                                    st.just(["bytearray", "6162"]), st.just(["list"]))
         wrong_for_bytes = st.one_of(text_arg, st.just(["none"]), st.just(["int", 7]), st.just(["float"]),
                                     st.binary(max_size=10).map(lambda b: ["bytearray", b.hex()]),
@@ -254,6 +271,15 @@ class C03(Prop):
         def scheduled():
             for c in inner.make():
                 yield dict(c, sched=True)
+        def unencodable_texts():
+            # text that has no UTF-8 form must be refused (ValueError) and write nothing, wherever the unpaired
+            # surrogate sits and whichever it is
+            for cp in SURROGATES:
+                for deflate in (False, True):
+                    yield {"calls": [{"m": "send_text", "arg": ["surrogate", cp, pos]} for pos in range(4)] +
+                                    [{"m": "send_text", "arg": ["str", "still fine"]}],
+                           "keys": FIXED_KEYS[1:2] * 6, "deflate": deflate}
+
         def special_texts():
             # code points that codecs and text tools treat specially, alone / doubled / first / middle / last,
             # as text, as JSON and as a close reason
@@ -268,7 +294,8 @@ class C03(Prop):
                        "keys": FIXED_KEYS[3:4] * 6, "deflate": False}
         return [Enumeration("length_sweep_x_4_keys", sweep, exhaustive=True), after_every_prelude(battery),
                 Enumeration("one_complete_frame_per_call_while_another_thread_writes", scheduled, exhaustive=True),
-                Enumeration("special_code_points_round_trip", special_texts, exhaustive=True)]
+                Enumeration("special_code_points_round_trip", special_texts, exhaustive=True),
+                Enumeration("unencodable_text_is_refused", unencodable_texts, exhaustive=True)]
 
     def run_case(self, case):
         if case.get("sched"):
